@@ -325,7 +325,7 @@ func checkCipherSuiteParser(c *Ctx, r *Report, parser *ssa.Function) {
 	})
 	r.Check(okIANA, name+"|OEM IANA", parser.Pos(), "bytes 2,3,4 little-endian", "the OEM enterprise number is not bytes 2..4, least significant first")
 
-	r.Rule("expansion-order", "algorithms are collected in input order and the cross product is expanded integrity-outer, confidentiality-inner; records are appended in that order", 3)
+	r.Rule("expansion-order", "algorithms are collected in input order and the cross product is expanded integrity-outer, confidentiality-inner; records are appended in that order", 4)
 	var appendRec *ssa.Call
 	var stI, stC *ssa.Store
 	allInstrs(parser, false, func(in ssa.Instruction) {
@@ -361,6 +361,45 @@ func checkCipherSuiteParser(c *Ctx, r *Report, parser *ssa.Function) {
 		r.Check(ok, name+"|nesting", appendRec.Pos(), "confidentiality loop nested in integrity loop; append in the inner loop", "the cross product is not expanded integrity-outer / confidentiality-inner with the append innermost")
 		r.Check(ok && countingLoop(lA.blockList()) && countingLoop(lI.blockList()), name+"|ascending", appendRec.Pos(), "both expansion loops are ascending range loops", "expansion loops are not ascending index loops over the collected algorithms")
 	}
+	// the appended record is a fresh zero value in every iteration of the record loop
+	if appendRec != nil {
+		okFresh := false
+		var cell *ssa.Alloc
+		if sl, ok := appendRec.Call.Args[1].(*ssa.Slice); ok {
+			if al, ok := sl.X.(*ssa.Alloc); ok {
+				for _, ref := range *al.Referrers() {
+					if ia, ok := ref.(*ssa.IndexAddr); ok {
+						for _, r2 := range *ia.Referrers() {
+							if st, ok := r2.(*ssa.Store); ok {
+								if ld, ok := st.Val.(*ssa.UnOp); ok {
+									cell, _ = ld.X.(*ssa.Alloc)
+								}
+							}
+						}
+					}
+				}
+			}
+		}
+		var outer *Loop
+		for l := innermostLoop(loops, appendRec.Block()); l != nil; l = l.Parent {
+			outer = l
+		}
+		if cell != nil && outer != nil {
+			// the cell is allocated (zeroed) inside the record loop, or zero-stored there, before the append
+			if outer.Blocks[cell.Block()] && mustPrecede(parser, cell, appendRec) {
+				okFresh = true
+			}
+			for _, ref := range *cell.Referrers() {
+				if st, ok := ref.(*ssa.Store); ok && st.Addr == ssa.Value(cell) && outer.Blocks[st.Block()] && mustPrecede(parser, st, appendRec) {
+					if k, isC := st.Val.(*ssa.Const); isC && k.Value == nil {
+						okFresh = true
+					}
+				}
+			}
+		}
+		r.Check(okFresh, name+"|fresh record per iteration", appendRec.Pos(), "the record value is zeroed at the start of every record", "the record value is not reset for each record: fields set only for some records (the OEM enterprise number) leak into the following records")
+	}
+
 	// collection loops: append while tag matches, offset+1 per element
 	nColl := 0
 	for _, l := range loops {
